@@ -155,3 +155,13 @@ Definition serve_step (entry : string) (st : sstate) (e : ev) (x : ans) : option
       end
   | _ => Some st
   end.
+
+(* ---------------- C03: hidden recipients ---------------- *)
+(* forwarding: the received activity is passed on unchanged and is outside C03 (it did not originate here) *)
+Definition hidden_step (entry : string) (in_fwd : bool) (e : ev) (x : ans) : option bool :=
+  match e with
+  | EDb op _ => Some (in_fwd || (String.eqb op "Exists" && String.eqb entry "postinbox"))
+  | EBatchDeliver p _ => if in_fwd || no_hidden p then Some in_fwd else None
+  | EWrite b => if String.eqb entry "handler" then (if deep_no_hidden (S (jdepth b)) b then Some in_fwd else None) else Some in_fwd
+  | _ => Some in_fwd
+  end.
